@@ -79,7 +79,7 @@ def build(v):
             object.__setattr__(obj, k, build(x))
         return obj
     if '$dict' in v:
-        return {k: build(x) for k, x in v['$dict']}
+        return {build(k): build(x) for k, x in v['$dict']}
     raise ValueError(f'cannot rebuild {v}')
 
 
@@ -135,7 +135,7 @@ def main(path):
         old = copy.deepcopy(state)
         pre = copy.deepcopy(state)
         bindings = dict(args)
-        bindings.update({'old': old, 's': state, 'K': K, 'a': a})
+        bindings.update({'old': old, 's': state, 'K': K, 'a': a, 'integral': model.get('chips', 'int') == 'int'})
         kind, meta = ob['kind'], ob['meta']
         path_kind = meta.get('path', 'normal')
         result, exc = None, None
